@@ -264,6 +264,10 @@ pub fn check_counts(g: &G, weighted: bool, fail: &mut dyn FnMut(&str, &str, Stri
 }
 
 impl E1Oracle for C09Oracle {
+    fn warmup(&mut self, g: &G, _alphabet: &Alphabet) {
+        let w = self.weighted;
+        check_counts(g, w, &mut |_, _, _| {});
+    }
     fn state(&mut self, s: &StateCtx, rec: &Recorder, c: &mut Counters) {
         c.inc("states_checked");
         let b = Base::of(s.g);
